@@ -5,18 +5,16 @@ From Raptor Require Import Base.Sums Sparse.Defs Krylov.KDefs Extract.Inst.
 
 Local Open Scope Qc_scope.
 
-(* fabs(v) <= zero_tol *)
-Definition Qc_tiny (q : Qc) : bool := Qc_leb (Qcabs q) zero_tol.
 Definition ztol2 : Qc := zero_tol * zero_tol.
 
 Definition q_vops := vops Qc.
-Definition q_seq_ops : q_vops := seq_ops Qc 0 Qcplus Qcmult Qc_tiny.
-Definition q_dist_ops (parts : list nat) : q_vops := dist_ops Qc 0 Qcplus Qcmult Qc_tiny parts.
+Definition q_seq_ops : q_vops := seq_ops Qc 0 Qcplus Qcmult.
+Definition q_dist_ops (parts : list nat) : q_vops := dist_ops Qc 0 Qcplus Qcmult parts.
 
 Definition q_inner := inner Qc 0 Qcplus Qcmult.
-Definition q_norm2sq := norm2sq Qc 0 Qcplus Qcmult Qc_tiny.
+Definition q_norm2sq := norm2sq Qc 0 Qcplus Qcmult.
 Definition q_dinner := dinner Qc 0 Qcplus Qcmult.
-Definition q_dnorm2sq := dnorm2sq Qc 0 Qcplus Qcmult Qc_tiny.
+Definition q_dnorm2sq := dnorm2sq Qc 0 Qcplus Qcmult.
 
 Definition q_cg_run (A : csr Qc) (ops : q_vops) (b : list Qc) (tol : Qc) (max_iter : nat) (x0 : list Qc) :=
   cg_run Qc 0 1 Qcmult Qcopp Qcdiv Qc_eqb Qc_ltb (q_csr_spmv A) (q_csr_residual A) ops b tol max_iter x0.
@@ -34,11 +32,13 @@ Definition q_pcg_run (A : csr Qc) (M : list (list Qc)) (ops : q_vops) (b : list 
 Definition q_pcg_binner (M : list (list Qc)) (ops : q_vops) (b : list Qc) := pcg_binner Qc ops b (dense_mv M).
 
 Definition q_par_cg_scale (parts : list nat) (b : list Qc) : Qc :=
-  par_cg_scale Qc 0 1 Qcplus Qcmult Qc_ltb Qc_tiny parts ztol2 b.
+  par_cg_scale Qc 0 1 Qcplus Qcmult Qc_ltb parts ztol2 b.
+Definition q_par_cg_reported (parts : list nat) (b hist : list Qc) : list Qc :=
+  par_cg_reported Qc 0 1 Qcplus Qcmult Qcdiv Qc_ltb parts ztol2 b hist.
 
 (* extended values over Qc *)
-Definition q_xnorm2sq := xnorm2sq Qc 0 Qcplus Qcmult Qc_tiny.
+Definition q_xnorm2sq := xnorm2sq Qc 0 Qcplus Qcmult.
 Definition q_xinner := xinner Qc 0 Qcplus Qcmult.
-Definition q_xdnorm2sq := xdnorm2sq Qc 0 Qcplus Qcmult Qc_tiny.
+Definition q_xdnorm2sq := xdnorm2sq Qc 0 Qcplus Qcmult.
 Definition q_xdinner := xdinner Qc 0 Qcplus Qcmult.
 Definition q_xgt := xgt Qc Qc_ltb.
